@@ -424,15 +424,15 @@ prop(
     "get_next_command (its `find` runs core's memchr: out of memory even for 2-byte lines); longer lines; history files; terminal rendering.",
     ["char::is_whitespace / is_alphanumeric replaced by their exact answers on the 5-character alphabet"],
 )
+CH_STUB = "char::is_whitespace / char::is_alphanumeric -> exact answers on the alphabet"
+for n in (0, 1, 2, 3):
+    H("C20", f"debugger::command::reader::terminal::verif_h::c20_motion_len{n}", TERMF, tier=("quick" if n <= 2 else "thorough"), covers=2, timeout=3000, mem_gb=30,
+      stubs=[CH_STUB], functions=["find_word_next", "find_word_back", "count_chars_bytes"],
+      what=f"word motions + index conversion on all {5**n} strings of {n} characters x every cursor (enumerated) x both word modes (symbolic)", bounds=f"{n} characters")
 for n in (0, 1, 2):
-    H("C20", f"debugger::command::reader::terminal::verif_h::c20_kernels_len{n}", TERMF, covers=2, timeout=3000, mem_gb=24,
-      stubs=["char::is_whitespace / char::is_alphanumeric -> exact answers on the alphabet"],
-      functions=["find_word_next", "find_word_back", "count_chars_bytes", "insert_char_index", "remove_char_index"],
-      what=f"all {5**n} strings of {n} characters x every cursor x both word modes x every inserted character", bounds=f"{n} characters")
-H("C20", "debugger::command::reader::terminal::verif_h::c20_kernels_len3", TERMF, tier="thorough", covers=2, timeout=6000, mem_gb=30,
-  stubs=["char::is_whitespace / char::is_alphanumeric -> exact answers on the alphabet"],
-  functions=["find_word_next", "find_word_back", "count_chars_bytes", "insert_char_index", "remove_char_index"],
-  what="all 125 strings of 3 characters x every cursor x both word modes", bounds="3 characters")
+    H("C20", f"debugger::command::reader::terminal::verif_h::c20_edit_len{n}", TERMF, tier=("quick" if n <= 1 else "thorough"), covers=2, timeout=3000, mem_gb=30,
+      functions=["insert_char_index", "remove_char_index", "count_chars_bytes"],
+      what=f"insert/remove at a character index on all {5**n} strings of {n} characters x every cursor (enumerated) x every inserted character (symbolic)", bounds=f"{n} characters")
 # (get_next_command's `find(';')` goes through core's memchr: 1.7 M symex steps for a 2-byte line, out of memory -- not registered)
 
 # ------------------------------------------------------------------ C15
